@@ -146,6 +146,23 @@ IntervalNOK(t) == /\ t.inside = InBoxN(t.lo, t.hi, t.p)
                   /\ t.hullInside = InBoxN(MinN(t.lo, t.lo2), MaxN(t.hi, t.hi2), t.p)
                   /\ t.complInside = (~InBoxN(t.lo, t.hi, t.p) /\ InBoxN(t.limLo, t.limHi, t.p))
 
+(* ---------------- RansacIterations (regression/ransac): the iteration bound is a running minimum, starting at the maximal number *)
+(* of iterations, of n(w) = floor(log(1 - p) / log(1 - w^k)) with w = inliers / points: the smallest-but-one n for which the       *)
+(* probability q^n of never having drawn an all-inlier sample, q = 1 - w^k = a / b, is still at least 1 - p = 2^-pk.  In integers: *)
+(* a^n 2^pk >= b^n and a^(n+1) 2^pk <= b^(n+1) (both non-strict: when q^m = 1 - p exactly, floating point may answer m or m - 1).  *)
+(* An update that does not lower the bound must have n >= bound: a^bound 2^pk >= b^bound.  u = <<inliers, k, bound after, chk>>;  *)
+(* chk = 0 when the powers would leave TLC's integers - then only the monotonicity is checked.                                    *)
+RECURSIVE XPow(_, _)
+XPow(a, n) == IF n = 0 THEN 1 ELSE a * XPow(a, n - 1)
+RansacItStepOK(N, pk, prev, u) ==
+    LET b == XPow(N, u[2])  a == b - XPow(u[1], u[2])  now == u[3] IN
+    /\ now >= 0 /\ now <= prev
+    /\ u[4] = 1 => IF now < prev THEN /\ XPow(a, now) * XPow(2, pk) >= XPow(b, now)
+                                     /\ XPow(a, now + 1) * XPow(2, pk) <= XPow(b, now + 1)
+                    ELSE XPow(a, prev) * XPow(2, pk) >= XPow(b, prev)
+RansacItOK(t) == /\ t.first
+                 /\ \A j \in DOMAIN t.ups : RansacItStepOK(t.N, t.pk, IF j = 1 THEN t.maxIt ELSE t.ups[j - 1][3], t.ups[j])
+
 (* ---------------- durations (nanoseconds as the unit; values kept below 2^31) *)
 FromMicro(us) == us * 1000
 ToMicro(ns) == IF ns >= 0 THEN ns \div 1000 ELSE -((-ns) \div 1000)          \* C++ integer division truncates toward zero
